@@ -169,6 +169,25 @@ def check_sequence(kind, codes, codes2):
         return f"str/len/symbols of {s1!r}: {str(a)!r}"
     if [int(c) for c in a.code] != [c % len(syms) for c in codes]:
         return "codes"
+    if kind == 1:
+        # the requested alphabet is the one that is used: ambiguous=False means the unambiguous alphabet, and a letter
+        # outside it is refused; no request means the unambiguous alphabet whenever it suffices
+        from biotite.sequence import AlphabetError
+        plain = all(ch in "ACGT" for ch in s1)
+        try:
+            u = NucleotideSequence(s1, ambiguous=False)
+            if not plain:
+                return f"NucleotideSequence({s1!r}, ambiguous=False) accepted letters outside the unambiguous alphabet"
+            if u.alphabet != NucleotideSequence.alphabet_unamb or str(u) != s1:
+                return f"NucleotideSequence({s1!r}, ambiguous=False): alphabet {u.alphabet}"
+        except AlphabetError:
+            if plain:
+                return f"NucleotideSequence({s1!r}, ambiguous=False) refused"
+        d = NucleotideSequence(s1)
+        if (d.alphabet == NucleotideSequence.alphabet_unamb) != plain or str(d) != s1:
+            return f"NucleotideSequence({s1!r}): alphabet {d.alphabet}"
+        if a.alphabet != NucleotideSequence.alphabet_amb:
+            return f"NucleotideSequence({s1!r}, ambiguous=True): alphabet {a.alphabet}"
     for k in range(-len(s1), len(s1)):
         if a[k] != s1[k]:
             return f"index {k}"
@@ -331,6 +350,26 @@ def ob_translate(tier):
             return check_translate(codes, variant) is None
         cases.append(Case(f"translate variant={variant}", base, run, dict(codes=vs, pre=pre, variant=variant),
                           lambda w: _rep(check_translate, [[0, 3, 2], [3, 3, 2], [1, 3, 2]][w["pre"]] + w["codes"][:len(w["codes"]) - 2 if tier == "quick" else len(w["codes"])], w["variant"])))
+    # start codons in two different reading frames, the one of the later frame upstream of the other: proteins and
+    # positions stay paired (check_translate pairs them by index) and are ordered by start
+    p1, p2 = z3.Ints("p1 p2")
+    fill = [z3.Int(f"f{i}") for i in range(6)]
+
+    def two(p1v, p2v, fv):
+        seq = [1 if x else 0 for x in fv] * 2          # filler from {A, C}: never a start or stop codon
+        seq = seq[:12]
+        for p in (p1v, p2v):
+            seq[p:p + 3] = [0, 3, 2]
+        return seq
+
+    def run_two():
+        ex = cur()
+        a_ = ex.choose(p1, range(0, 6))
+        b_ = ex.choose(p2, range(a_ + 3, 10))
+        fv = [ex.choose(f, range(2)) for f in fill]
+        return check_translate(two(a_, b_, fv), 0) is None
+    cases.append(Case("two start codons in different frames", [p1 >= 0, p1 < 6, p2 >= p1 + 3, p2 < 10] + [z3.And(f >= 0, f < 2) for f in fill],
+                      run_two, dict(p1=p1, p2=p2, fill=fill), lambda w: _rep(check_translate, two(w["p1"], w["p2"], w["fill"]), 0)))
     # every codon against the standard code
     a, b, c = z3.Ints("a b c")
 
